@@ -2443,6 +2443,11 @@ class ConvertPythonInstance:
                     inp._cohdl_info.instantiated_template = out.EntityTemplate(
                         inp._cohdl_info.copy(), None, None
                     )
+
+                    # extern entities have no architecture and are not reported to the
+                    # instantiation handler, register the info so the template
+                    # is discarded when the compilation is done
+                    self._entity_infos.append(inp._cohdl_info)
                 else:
                     #
                     # instantiate template with ports/generics
